@@ -25,7 +25,7 @@ EXPL = ('(R-POLY/exp) exponentiate_gt(a, c) is interpreted in the exponent domai
 def run(ctx):
     ctx.explanation = EXPL
     ctx.level = 'other'
-    ctx.assumptions = ['on 32-bit-word configurations the bit-serial division inside PowersOfX::decompose is not decided (the 64-bit-word configurations decide the decomposition on every path); tower operations are the field operations (C04)']
+    ctx.assumptions = ['on 32-bit-word configurations the 64-step restoring division inside divide_std_dword is decided as an inductive step for every bit position and then summarised by upper*2^64 + lower == d*quotient + rem; tower operations are the field operations (C04)']
     for cfg, prog in ctx.programs().items():
         n = guards.rule_defout(ctx, cfg, prog, name_filter=lambda f: 'Fq12' in f['qn'] or 'exponentiate' in f['qn'])
         ctx.floor('R-DEFOUT accumulation functions[%s]' % cfg, n, 3)
